@@ -453,9 +453,10 @@ extern "C"
 // ---- the one fault kind: allocation failure inside a library call (DESIGN 9.5) ----------------------------------
 static uint64_t g_alloc_in_calls = 0, g_alloc_failed = 0;
 static thread_local int32_t tl_alloc_seen = 0, tl_alloc_fail_at = 0;
+static thread_local bool tl_in_harness = false;       // set while harness code (yield-point bookkeeping) runs inside a simulated call
 static inline bool hsim_alloc_should_fail()
   {
-  if (!tl_in_call) return false;
+  if (!tl_in_call || tl_in_harness) return false;       // only the library's own requests count
   ++g_alloc_in_calls;
   if (tl_alloc_fail_at > 0 && ++tl_alloc_seen == tl_alloc_fail_at) { ++g_alloc_failed; errno = ENOMEM; return true; }
   return false;
@@ -530,7 +531,13 @@ static void handoff(int me, int target)
 extern "C" int hsim_in_call() { return tl_in_call ? 1 : 0; }
 
 // called (through sim/tsan_shim.cc) before every instrumented memory access of library code
+static void hsim_yield_impl(const void * addr, int is_write);
 extern "C" void hsim_yield(const void * addr, int is_write)
+  {
+  if (!tl_in_call || tl_in_harness) return;
+  tl_in_harness = true; hsim_yield_impl(addr, is_write); tl_in_harness = false;
+  }
+static void hsim_yield_impl(const void * addr, int is_write)
   {
   if (!tl_in_call) return;
   uintptr_t a = reinterpret_cast<uintptr_t>(addr);
@@ -566,6 +573,7 @@ extern "C" void hsim_yield(const void * addr, int is_write)
 // a simulated call that must wait for another caller (mutex, guarded static): pass the baton until pred holds
 extern "C" void hsim_wait_until(int (*pred)(void *), void * arg)
   {
+  struct Guard { bool prev; Guard() : prev(tl_in_harness) { tl_in_harness = true; } ~Guard() { tl_in_harness = prev; } } guard;
   int me = tl_client;
   if (!g_fine.active) { if (pred(arg)) return; _exit(5); }    // alone in the library and still blocked: self-deadlock
   for (int spins = 0; !pred(arg); ++spins)
